@@ -51,6 +51,11 @@ func fixedDesc(err error) *grpc.ServiceDesc {
 			if e := dec(m); e != nil {
 				return nil, e
 			}
+			if _, ok := ctx.Deadline(); ok {
+				// the case wants the call's deadline (GRPC-Timeout) to have
+				// passed before the handler returns
+				<-ctx.Done()
+			}
 			if err != nil {
 				return nil, err
 			}
@@ -106,6 +111,9 @@ func statusCase(c map[string]interface{}) (out map[string]interface{}) {
 			ctx, cancel := context.WithCancel(context.Background())
 			cancel()
 			req = req.WithContext(ctx)
+		}
+		if e, _ := c["expired"].(bool); e {
+			req.Header.Set("GRPC-Timeout", "1n")
 		}
 		rec := httptest.NewRecorder()
 		srv.ServeHTTP(rec, req)
